@@ -4,6 +4,8 @@ tree to a scratch directory; every check must give the same obligations and verd
 
   rename   every function-local (not parameters, globals, nonlocals or names shared with nested scopes) gets a suffix
   extract  every non-trivial argument of a statement-level call is hoisted, in evaluation order, into a fresh temporary
+  invert   early `continue`s become nested `if`s and if/else pairs are swapped under the negated test
+  reorder  adjacent, independent, effect-free local assignments are swapped
 
 Both variants of the compiler pass the repository's own unit tests (checked when the generators were written; the checks never
 run the compiler)."""
@@ -262,4 +264,70 @@ def make_invert(src_root: Path | str, dst: Path | str, with_tests: bool = False)
             ast.fix_missing_locations(tree)
             open(p, "w").write(ast.unparse(tree) + "\n")
             total += inv.count
+    return total
+
+
+# ---- reorder ---------------------------------------------------------------------------------
+
+def _pure_local_assign(st: ast.stmt) -> tuple[set[str], set[str]] | None:
+    """(names written, names read) of a plain `name = expr` whose value has no call, no await, no walrus and no subscript store;
+    None for anything else.  Attribute reads are pure in this code base (no properties with effects on the values involved are
+    assumed: the value must not contain a Call at all)."""
+    if not (isinstance(st, ast.Assign) and len(st.targets) == 1 and isinstance(st.targets[0], ast.Name)):
+        return None
+    PURE = {"get", "len", "isinstance", "str", "int", "float", "bool", "getattr", "hasattr", "set", "dict", "list", "tuple", "sorted", "min", "max", "abs", "frozenset"}
+    for x in ast.walk(st.value):
+        if isinstance(x, (ast.Await, ast.NamedExpr, ast.Yield, ast.YieldFrom, ast.Lambda, ast.ListComp, ast.SetComp, ast.DictComp, ast.GeneratorExp)):
+            return None
+        if isinstance(x, ast.Call):
+            nm = x.func.attr if isinstance(x.func, ast.Attribute) else (x.func.id if isinstance(x.func, ast.Name) else None)
+            if nm not in PURE:
+                return None
+    reads = {x.id for x in ast.walk(st.value) if isinstance(x, ast.Name)}
+    return {st.targets[0].id}, reads
+
+
+class Reorder(ast.NodeTransformer):
+    """Swap adjacent, independent, call-free local assignments (`a = p.q; b = r.s` -> `b = r.s; a = p.q`)."""
+
+    def __init__(self):
+        self.n = 0
+
+    def _block(self, body: list[ast.stmt]) -> list[ast.stmt]:
+        out = list(body)
+        i = 0
+        while i + 1 < len(out):
+            a, b = _pure_local_assign(out[i]), _pure_local_assign(out[i + 1])
+            if a and b and not (a[0] & (b[0] | b[1])) and not (b[0] & a[1]):
+                out[i], out[i + 1] = out[i + 1], out[i]
+                self.n += 1
+                i += 2
+            else:
+                i += 1
+        return out
+
+    def generic_visit(self, node):
+        super().generic_visit(node)
+        for fld in ("body", "orelse", "finalbody"):
+            seq = getattr(node, fld, None)
+            if isinstance(seq, list) and seq and all(isinstance(x, ast.stmt) for x in seq) and not isinstance(node, (ast.Module, ast.ClassDef)):
+                setattr(node, fld, self._block(seq))
+        return node
+
+
+def make_reorder(src_root: Path | str, dst: Path | str, with_tests: bool = False) -> int:
+    copy_tree(src_root, dst, with_tests)
+    total = 0
+    for path in _py_files(dst):
+        src = open(path).read()
+        try:
+            tree = ast.parse(src)
+        except SyntaxError:
+            continue
+        r = Reorder()
+        tree = r.visit(tree)
+        if r.n:
+            ast.fix_missing_locations(tree)
+            open(path, "w").write(ast.unparse(tree) + "\n")
+            total += r.n
     return total
